@@ -6,6 +6,7 @@
 import MdProofs.Lemmas.OnceSim
 import MdProofs.Lemmas.OnceCount
 import MdProofs.Lemmas.OnceKeys
+import MdProofs.Lemmas.OncePriv
 namespace MdModel.Once
 open MdModel
 
@@ -566,5 +567,119 @@ theorem compS_expandFrom {rc : RCfg} (hwf : rc.WF) {t : Nat} (ht : t < rc.T) (j 
     have := hsuf (i + 1) (by simp; omega)
     simp only [List.getElem?_cons_succ] at this
     rw [← this]; congr 1; omega
+
+/-! ## private slots are private -/
+
+theorem count_compS_le (ic : ICfg) (n : Nat) (l : List Item) (s : Nat) :
+    (compS ic n l).count s ≤ (l.map (·.slot)).count s := by
+  induction l generalizing n with
+  | nil => simp [compS]
+  | cons a l ih =>
+    cases n with
+    | succ n =>
+      simp only [compS, List.map_cons, List.count_cons]
+      have := ih n; omega
+    | zero =>
+      simp only [compS, List.map_cons, List.count_cons]
+      have := ih (skipOf (ic.outcome a.slot) a); omega
+
+theorem count_map_le_of_inj_at {L : List Nat} {g : Nat → Nat} {s p : Nat}
+    (h : ∀ x ∈ L, g x = s → x = p) : (L.map g).count s ≤ L.count p := by
+  induction L with
+  | nil => simp
+  | cons a L ih =>
+    have := ih (fun x hx => h x (List.mem_cons_of_mem _ hx))
+    simp only [List.map_cons, List.count_cons]
+    by_cases hg : g a = s
+    · have hap := h a (by simp) hg
+      subst hap
+      simp [hg]; omega
+    · simp [hg]; omega
+
+/-- an item of request `(t', j')` whose slot is the private slot of `(t, j, p)` -/
+theorem reqItem_priv {rc : RCfg} {t' j' p' t j p : Nat} {q : Req} (ht' : t' < rc.T) (ht : t < rc.T)
+    (hp' : p' < rc.P) (hp : p < rc.P)
+    (h : (reqItem rc t' j' q p').slot = privSlot rc t j p) : t' = t ∧ j' = j ∧ p' = p := by
+  unfold reqItem at h
+  cases hk : q.kind with
+  | fill => simp only [hk] at h; exact absurd h (sym_ne_priv rc _ _ _ _ _)
+  | walk => simp only [hk] at h; exact absurd h (sym_ne_priv rc _ _ _ _ _)
+  | file fk =>
+    simp only [hk] at h
+    by_cases hc : (rc.prov p').cached = true
+    · simp only [hc, if_true] at h; exact absurd h (file_ne_priv rc _ _ _ _ _ _)
+    · simp only [hc] at h
+      exact privSlot_inj ht' ht hp' hp h
+
+theorem priv_mem_expandFrom {rc : RCfg} {t' t j p j0 : Nat} {qs : List Req} (ht' : t' < rc.T)
+    (ht : t < rc.T) (hp : p < rc.P)
+    (h : privSlot rc t j p ∈ (expandFrom rc t' j0 qs).map (·.slot)) : t' = t ∧ j0 ≤ j := by
+  obtain ⟨i, hi, he⟩ := List.mem_map.mp h
+  obtain ⟨q, _, j', hij, _, hle⟩ := mem_expandFrom hi
+  simp only [expandReq_eq, List.mem_map, List.mem_range'_1] at hij
+  obtain ⟨p', hp', rfl⟩ := hij
+  obtain ⟨h1, h2, _⟩ := reqItem_priv ht' ht (by omega) hp he
+  exact ⟨h1, by omega⟩
+
+theorem count_priv_expandFrom {rc : RCfg} {t j p : Nat} (ht : t < rc.T) (hp : p < rc.P) (j0 : Nat)
+    (qs : List Req) : ((expandFrom rc t j0 qs).map (·.slot)).count (privSlot rc t j p) ≤ 1 := by
+  induction qs generalizing j0 with
+  | nil => simp [expandFrom]
+  | cons q qs ih =>
+    simp only [expandFrom, List.map_append, List.count_append]
+    by_cases hj : j0 = j
+    · subst hj
+      have hrest : ((expandFrom rc t (j0 + 1) qs).map (·.slot)).count (privSlot rc t j0 p) = 0 := by
+        apply List.count_eq_zero.mpr
+        intro hm
+        have := (priv_mem_expandFrom ht ht hp hm).2
+        omega
+      have hseg : ((expandReq rc t j0 q).map (·.slot)).count (privSlot rc t j0 p) ≤ 1 := by
+        rw [expandReq_eq, List.map_map]
+        have h1 := count_map_le_of_inj_at (L := List.range' 0 rc.P)
+          (g := (fun i : Item => i.slot) ∘ reqItem rc t j0 q) (s := privSlot rc t j0 p) (p := p)
+          (by
+            intro x hx hg
+            simp only [List.mem_range'_1] at hx
+            exact (reqItem_priv ht ht (by omega) hp hg).2.2)
+        have h2 : (List.range' 0 rc.P).count p ≤ 1 :=
+          List.nodup_iff_count.mp (List.nodup_range') p
+        omega
+      omega
+    · have hseg : ((expandReq rc t j0 q).map (·.slot)).count (privSlot rc t j p) = 0 := by
+        apply List.count_eq_zero.mpr
+        intro hm
+        obtain ⟨i, hi, he⟩ := List.mem_map.mp hm
+        simp only [expandReq_eq, List.mem_map, List.mem_range'_1] at hi
+        obtain ⟨p', hp', rfl⟩ := hi
+        exact hj (reqItem_priv ht ht (by omega) hp he).2.1
+      have := ih (j0 + 1)
+      omega
+
+/-- **private slots are never contended**: no task ever waits for the lock of the private slot of
+    a `get_file_path` request — the lookup is a plain call -/
+theorem private_slot_never_waited {rc : RCfg} (sched : List Nat) {t j p : Nat} (ht : t < rc.T)
+    (hp : p < rc.P) (u : Nat) :
+    ((exec (compile (toICfg rc)) sched (init (compile (toICfg rc)))).task u).ctl ≠
+      .waiting (privSlot rc t j p) := by
+  have hprog : ∀ t', privSlot rc t j p ∈ (compile (toICfg rc)).prog t' → t' = t := by
+    intro t' hm
+    rw [compile_prog] at hm
+    by_cases ht' : t' < rc.T
+    · rw [toICfg_prog rc ht'] at hm
+      obtain ⟨i, hi, he⟩ := mem_compS hm
+      exact (priv_mem_expandFrom ht' ht hp (List.mem_map.mpr ⟨i, hi, he⟩)).1
+    · have : (toICfg rc).prog t' = [] := by
+        have hle : rc.T ≤ t' := by omega
+        simp [toICfg, ICfg.prog, List.getD_eq_getElem?_getD, hle]
+      rw [this] at hm; simp [compS] at hm
+  apply private_key_never_waited (invA_reach _ sched)
+  · intro t₁ t₂ h1 h2; rw [hprog t₁ h1, hprog t₂ h2]
+  · intro t'
+    by_cases hm : privSlot rc t j p ∈ (compile (toICfg rc)).prog t'
+    · have := hprog t' hm; subst this
+      rw [compile_prog, toICfg_prog rc ht]
+      exact Nat.le_trans (count_compS_le _ _ _ _) (count_priv_expandFrom ht hp 0 _)
+    · rw [List.count_eq_zero.mpr hm]; omega
 
 end MdModel.Once
